@@ -26,64 +26,75 @@ def nz : Bytes := [122]   -- "z"
 /-- The property's statement on its stated domain (no signed overflow, shift counts 0..63): for
     every tree of bash's grammar and every environment, whenever bash's semantics pronounces a
     result (a value or one of bash's errors) the implementation returns the same result and leaves
-    the same environment.  FALSE of the code — see the counter-examples below. -/
+    the same environment.  Still FALSE of the code — see the counter-examples below (all open known
+    findings). -/
 def eval_eq_spec_statement : Prop :=
   ∀ (fuel : Nat) (env : Env) (e : Expr) (r : Res) (env' : Env), WF e = true →
     specEval fuel bashMaxDepth env e = (r, env') → r.inDomain → evalArith env e = (r, env')
 
-/-- `eval_eq_spec` under the exact extra hypotheses: every variable value is an integer literal or
-    a chain of names ending in one (`EnvOK`), every constant in the expression is a valid bash
-    constant (`LitsOK`), and the targets of `op=`, `++`, `--` hold a literal, not a name
-    (`LvalsOK`). -/
+/-- `eval_eq_spec` for environments whose variables hold nothing, an integer literal, a name, or
+    **an arbitrary expression text** (`EnvOK`: the text lexes and parses completely, its constants
+    are valid, and it is not a bare signed/blank-padded name), for expressions with valid constants
+    (`LitsOK`), whenever the evaluation needs at most 99 levels of nesting through variable values
+    (the code's limits are 99 names / 100 texts, bash's 1024; `r.good`): the code returns bash's
+    result — value or error, and final environment — bash's own budget gives that same result, the
+    invariant `EnvOK` is preserved, and no wrap-around is observed.  Targets of `op=`, `++`, `--`
+    need no extra hypothesis any more. -/
 theorem eval_eq_spec_partial (fuel : Nat) (env : Env) (e : Expr) (r : Res) (env' : Env)
-    (hwf : WF e = true) (henv : EnvOK env) (hlit : LitsOK e) (hlv : LvalsOK env.get e)
-    (h : specEval fuel bashMaxDepth env e = (r, env')) (hd : r.inDomain) :
-    evalArith env e = (r, env') :=
-  eval_eq_spec_core fuel env e r env' hwf henv hlit hlv h hd
+    (hwf : WF e = true) (henv : EnvOK env) (hlit : LitsOK e)
+    (h : specEval fuel codeDepth env e = (r, env')) (hd : r.good) :
+    evalArith env e = (r, env') ∧ specEval fuel bashMaxDepth env e = (r, env') ∧ EnvOK env' ∧
+      (∀ v, r = .ok v → inI64 v = true) :=
+  eval_eq_spec_core fuel env e r env' hwf henv hlit h hd
 
-/-- Non-vacuity: the hypotheses hold for `x=5; y=x; $(( y * 2 + x++ ))` and the result is 15. -/
+/-- Non-vacuity, with expression-text values, a name-valued `op=` target and side effects inside a
+    value: `x=5; y="x*2+1"; z=y; w="x++"; $(( z + (y += 1) + w + x ))` is 11 + 12 + 5 + 6 = 34. -/
 example :
-    let env := envOf [(nx, [53]), (ny, nx)]
-    let e : Expr := .binary .add (.binary .mul (.word ny) (.word [50])) (.unary .inc true (.word nx))
-    (specEval 100 bashMaxDepth env e).1 = .ok 15 ∧ (evalArith env e).1 = .ok 15 := by decide
+    let env := envOf [(nx, [53]), (ny, [120, 42, 50, 43, 49]), (nz, ny), ([119], [120, 43, 43])]
+    let e : Expr := .binary .add (.binary .add (.binary .add (.word nz)
+      (.paren (.binary .addAssgn (.word ny) (.word [49])))) (.word [119])) (.word nx)
+    (specEval 200 codeDepth env e).1 = .ok 34 ∧ (evalArith env e).1 = .ok 34 := by decide
 
-/-- Counter-example 1 (C20-expr-text-value): `x="1+2"; $((x))` is 3 in bash, 0 in the code. -/
-theorem eval_eq_spec_counterexample_text :
-    (specEval 100 bashMaxDepth (envOf [(nx, ([49, 43, 50] : Bytes))]) (.word nx)).1 = .ok 3 ∧
-    (evalArith (envOf [(nx, ([49, 43, 50] : Bytes))]) (.word nx)).1 = .ok 0 := by decide
-
-/-- Counter-example 2 (C20-lvalue-no-chase): `y=x; x=5; $((y+=1))` is 6 in bash, 1 in the code. -/
-theorem eval_eq_spec_counterexample_lvalue :
+/-- Repaired (19b4ebf, 5f53769): `x="1+2"; $((x))` is 3 and `y=x; x=5; $((y+=1))` is 6, in the
+    specification and in the code. -/
+theorem pinned_expr_text_and_lvalue :
+    (specEval 100 bashMaxDepth (envOf [(nx, [49, 43, 50])]) (.word nx)).1 = .ok 3 ∧
+    (evalArith (envOf [(nx, [49, 43, 50])]) (.word nx)).1 = .ok 3 ∧
     (specEval 100 bashMaxDepth (envOf [(ny, nx), (nx, [53])])
       (.binary .addAssgn (.word ny) (.word [49]))).1 = .ok 6 ∧
-    (evalArith (envOf [(ny, nx), (nx, [53])]) (.binary .addAssgn (.word ny) (.word [49]))).1 = .ok 1 := by
+    (evalArith (envOf [(ny, nx), (nx, [53])]) (.binary .addAssgn (.word ny) (.word [49]))).1 = .ok 6 := by
   decide
 
-/-- Counter-example 3 (C20-invalid-literal-no-error): `$((08))` is an error in bash, 0 in the code. -/
+/-- Counter-example (C20-invalid-literal-no-error): `$((08))` is an error in bash, 0 in the code. -/
 theorem eval_eq_spec_counterexample_literal :
     (specEval 100 bashMaxDepth (envOf []) (.word [48, 56])).1 = .err .badNumber ∧
     (evalArith (envOf []) (.word [48, 56])).1 = .ok 0 := by decide
 
-/-- Counter-example 4 (C20-name-cycle): `x=x; $((x))` exceeds bash's recursion limit (an error),
-    the code gives 0. -/
+/-- Counter-example (C20-name-cycle, documented upstream): `x=x; $((x))` exceeds bash's recursion
+    limit (an error), the code gives 0. -/
 theorem eval_eq_spec_counterexample_cycle :
     (specEval 3000 bashMaxDepth (envOf [(nx, nx)]) (.word nx)).1 = .err .recursion ∧
     (evalArith (envOf [(nx, nx)]) (.word nx)).1 = .ok 0 :=
   ⟨cycle_recursion, by decide⟩
 
-/-- On the domain of `eval_eq_spec_partial` every value fits int64: the wrap-around of the Go
-    code is never observed. -/
-theorem eval_no_overflow (fuel : Nat) (env : Env) (e : Expr) (v : Int) (env' : Env)
-    (hwf : WF e = true) (henv : EnvOK env) (hlit : LitsOK e) (hlv : LvalsOK env.get e)
-    (h : specEval fuel bashMaxDepth env e = (.ok v, env')) : inI64 v = true :=
-  eval_inI64_core fuel env e v env' hwf henv hlit hlv h
+/-- Counter-example (C20-numberlike-name): `x=5; y=-x; $((y))` is -5 in bash, 0 in the code. -/
+theorem eval_eq_spec_counterexample_signed_name :
+    (specEval 100 bashMaxDepth (envOf [(nx, [53]), (ny, [45, 120])]) (.word ny)).1 = .ok (-5) ∧
+    (evalArith (envOf [(nx, [53]), (ny, [45, 120])]) (.word ny)).1 = .ok 0 := by decide
+
+/-- Counter-example (C20-value-trailing-tokens): `y="1 2"; $((y))` is a syntax error in bash, 1 in
+    the code. -/
+theorem eval_eq_spec_counterexample_trailing :
+    (specEval 100 bashMaxDepth (envOf [(ny, [49, 32, 50])]) (.word ny)).1 = .err .syntaxErr ∧
+    (evalArith (envOf [(ny, [49, 32, 50])]) (.word ny)).1 = .ok 1 := by decide
 
 theorem eval_eq_spec_statement_false : ¬ eval_eq_spec_statement := by
   intro h
-  have h2 := eval_eq_spec_counterexample_text
-  have h1 := h 100 (envOf [(nx, [49, 43, 50])]) (.word nx)
-    (specEval 100 bashMaxDepth (envOf [(nx, [49, 43, 50])]) (.word nx)).1
-    (specEval 100 bashMaxDepth (envOf [(nx, [49, 43, 50])]) (.word nx)).2 (by decide) (prod_eta _)
+  have h2 := eval_eq_spec_counterexample_signed_name
+  have h1 := h 100 (envOf [(nx, [53]), (ny, [45, 120])]) (.word ny)
+    (specEval 100 bashMaxDepth (envOf [(nx, [53]), (ny, [45, 120])]) (.word ny)).1
+    (specEval 100 bashMaxDepth (envOf [(nx, [53]), (ny, [45, 120])]) (.word ny)).2 (by decide)
+    (prod_eta _)
   rw [h2.1] at h1
   have h3 := congrArg Prod.fst (h1 trivial)
   rw [h2.2] at h3
@@ -91,31 +102,24 @@ theorem eval_eq_spec_statement_false : ¬ eval_eq_spec_statement := by
 
 /-! ## assign_ops: `x op= e` ≡ `x = x op e` -/
 
-def assign_ops_statement : Prop :=
-  ∀ (env : Env) (op aop : BinOp) (x : Bytes) (e : Expr), assignOp op = some aop →
+/-- Holds in full since 5f53769: for every word `x`, environment and expression, also when `e`
+    modifies `x` (`a += a++`: the old value is read first on both sides). -/
+theorem assign_ops (env : Env) (op aop : BinOp) (x : Bytes) (e : Expr)
+    (hop : assignOp op = some aop) :
     evalArith env (.binary op (.word x) e) =
-      evalArith env (.binary .assgn (.word x) (.binary aop (.word x) e))
+      evalArith env (.binary .assgn (.word x) (.binary aop (.word x) e)) := by
+  unfold evalArith
+  rw [evalAt_eq]
+  exact assign_ops_with _ env op aop x e hop
 
-/-- True whenever the variable does not hold a (non-empty) name: `op=` reads it with `atoi`,
-    `x op e` with the name-chasing word rule. -/
-theorem assign_ops_partial (env : Env) (op aop : BinOp) (x : Bytes) (e : Expr)
-    (hop : assignOp op = some aop) (hx : validName x = true)
-    (hv : validName (env.get x) = false) :
-    evalArith env (.binary op (.word x) e) =
-      evalArith env (.binary .assgn (.word x) (.binary aop (.word x) e)) :=
-  assign_ops_core env op aop x e hop hx hv
-
-theorem assign_ops_counterexample :
-    (evalArith (envOf [(ny, nx), (nx, [53])]) (.binary .addAssgn (.word ny) (.word [49]))).1 = .ok 1 ∧
-    (evalArith (envOf [(ny, nx), (nx, [53])])
-      (.binary .assgn (.word ny) (.binary .add (.word ny) (.word [49])))).1 = .ok 6 := by decide
-
-theorem assign_ops_statement_false : ¬ assign_ops_statement := by
-  intro h
-  have h1 := congrArg Prod.fst
-    (h (envOf [(ny, nx), (nx, [53])]) .addAssgn .add ny (.word [49]) rfl)
-  rw [assign_ops_counterexample.1, assign_ops_counterexample.2] at h1
-  exact absurd h1 (by decide)
+/-- `a=3; $((a += a++))` is 6 and leaves a=6 (the class of an independently seeded change:
+    reading the old value after the right-hand side would give 7). -/
+theorem pinned_assign_reads_old_value_first :
+    (evalArith (envOf [([97], [51])]) (.binary .addAssgn (.word [97]) (.unary .inc true (.word [97])))).1
+      = .ok 6 ∧
+    ((evalArith (envOf [([97], [51])])
+      (.binary .addAssgn (.word [97]) (.unary .inc true (.word [97])))).2.get [97]) = [54] := by
+  decide
 
 /-! ## status -/
 
@@ -124,44 +128,68 @@ theorem status_arithCmd (env : Env) (e : Expr) :
     (arithCmdStatus env e).1 = 0 ↔ ∃ v, (evalArith env e).1 = .ok v ∧ v ≠ 0 :=
   status_arithCmd_core env e
 
-/-- `let e₁ … eₙ e`: status 0 iff the last expression, evaluated in the environment the previous
-    ones leave, gives a non-zero value. -/
-theorem status_let (env : Env) (es : List Expr) (e : Expr) :
-    (letStatus env (es ++ [e])).1 = 0 ↔
-      ∃ v, (evalArith (letLoop env 0 es).2 e).1 = .ok v ∧ v ≠ 0 :=
-  status_let_core env es e
+/-- `let e`: the same rule … -/
+theorem status_let_single (env : Env) (e : Expr) :
+    (letStatus env [e]).1 = 0 ↔ ∃ v, (evalArith env e).1 = .ok v ∧ v ≠ 0 :=
+  status_let_single_core env e
 
-/-- On the domain of `eval_eq_spec_partial`, `(( e ))` has bash's status and side effects, errors
-    included (both give 1). -/
+/-- … `let` stops at the first argument that fails, with status 1 (since 6b57f6d) … -/
+theorem status_let_error (env : Env) (e : Expr) (rest : List Expr)
+    (h : ∀ v, (evalArith env e).1 ≠ .ok v) :
+    letStatus env (e :: rest) = (1, (evalArith env e).2) :=
+  status_let_error_core env e rest h
+
+/-- … and otherwise continues with the next argument in the environment left by the previous one. -/
+theorem status_let_step (env env' : Env) (e e2 : Expr) (rest : List Expr) (v : Int)
+    (h : evalArith env e = (.ok v, env')) :
+    letStatus env (e :: e2 :: rest) = letStatus env' (e2 :: rest) :=
+  status_let_step_core env env' e e2 rest v h
+
+/-- On the domain of `eval_eq_spec_partial`, `(( e ))` has bash's status and side effects. -/
 theorem status_arithCmd_eq_spec (fuel : Nat) (env : Env) (e : Expr)
-    (hwf : WF e = true) (henv : EnvOK env) (hlit : LitsOK e) (hlv : LvalsOK env.get e)
-    (hd : (specEval fuel bashMaxDepth env e).1.inDomain) :
+    (hwf : WF e = true) (henv : EnvOK env) (hlit : LitsOK e)
+    (hd : (specEval fuel codeDepth env e).1.good) :
     arithCmdStatus env e = specArithCmdStatus fuel env e :=
-  status_arithCmd_eq_spec_core fuel env e hwf henv hlit hlv hd
+  status_arithCmd_eq_spec_core fuel env e hwf henv hlit hd
 
-/-- Full statement for `let` with several arguments and for `$(( ))`: FALSE (errors do not stop
-    `let`, and a failing expansion leaves status 0). -/
-def status_let_statement : Prop :=
-  ∀ (fuel : Nat) (env : Env) (es : List Expr), (∀ e ∈ es, WF e = true ∧ LitsOK e) → EnvOK env →
-    (∀ e ∈ es, LvalsOK env.get e) →
-    (∀ e ∈ es, ∀ env1, (specEval fuel bashMaxDepth env1 e).1.inDomain) →
-    (letStatus env es).1 = (specLetStatus fuel env es).1
+/-- `let e₁ … eₙ` has bash's status and side effects whenever every argument, evaluated in the
+    environment the previous ones leave, stays inside the domain (`LetDomain`) — errors included. -/
+theorem status_let (fuel : Nat) (env : Env) (es : List Expr) (henv : EnvOK env)
+    (hdom : LetDomain fuel env es) : letStatus env es = specLetStatus fuel env es :=
+  status_let_eq_spec_core fuel env es henv hdom
 
+/-- `let 1/0 x=5` (C20-let-continues-after-error, repaired): status 1 and x untouched, as in bash. -/
+theorem pinned_let_stops :
+    (letStatus (envOf []) [.binary .quo (.word [49]) (.word [48]), .binary .assgn (.word nx) (.word [53])]).1 = 1 ∧
+    ((letStatus (envOf []) [.binary .quo (.word [49]) (.word [48]),
+      .binary .assgn (.word nx) (.word [53])]).2.get nx) = [] ∧
+    (specLetStatus 100 (envOf [])
+      [.binary .quo (.word [49]) (.word [48]), .binary .assgn (.word nx) (.word [53])]).1 = 1 := by
+  decide
+
+/-- A command with `$(( e ))`: full statement — FALSE, because `expandErr` recognises only two
+    arithmetic error messages (C20-value-error-status). -/
 def status_expansion_statement : Prop :=
-  ∀ (fuel : Nat) (env : Env) (e : Expr), WF e = true → LitsOK e → EnvOK env → LvalsOK env.get e →
-    (specEval fuel bashMaxDepth env e).1.inDomain →
+  ∀ (fuel : Nat) (env : Env) (e : Expr), WF e = true → LitsOK e → EnvOK env →
+    (specEval fuel codeDepth env e).1.good →
     (expansionStatus env e).1 = (specExpansionStatus fuel env e).1
 
-/-- C20-let-continues-after-error: `let 1/0 x=5` has status 1 in bash, 0 in the code. -/
-theorem status_let_counterexample :
-    (letStatus (envOf []) [.binary .quo (.word [49]) (.word [48]), .binary .assgn (.word nx) (.word [53])]).1 = 0 ∧
-    (specLetStatus 100 (envOf [])
-      [.binary .quo (.word [49]) (.word [48]), .binary .assgn (.word nx) (.word [53])]).1 = 1 := by decide
+/-- True when the result is a value, a division by zero or a negative exponent (since 1704f80). -/
+theorem status_expansion_partial (fuel : Nat) (env : Env) (e : Expr)
+    (hwf : WF e = true) (henv : EnvOK env) (hlit : LitsOK e)
+    (hd : (specEval fuel codeDepth env e).1.good)
+    (herr : (∃ v, (specEval fuel codeDepth env e).1 = .ok v) ∨
+      (specEval fuel codeDepth env e).1 = .err .divZero ∨
+      (specEval fuel codeDepth env e).1 = .err .negExp) :
+    expansionStatus env e = specExpansionStatus fuel env e :=
+  status_expansion_eq_spec_core fuel env e hwf henv hlit hd herr
 
-/-- C20-arith-error-status: `echo $((1/0))` has status 1 in bash, 0 in the code. -/
+/-- `echo $((1/0))` has status 1 now; `y="x+"; echo $((y))` (a syntax error in the value) still has
+    status 0 where bash has 1. -/
 theorem status_expansion_counterexample :
-    (expansionStatus (envOf []) (.binary .quo (.word [49]) (.word [48]))).1 = 0 ∧
-    (specExpansionStatus 100 (envOf []) (.binary .quo (.word [49]) (.word [48]))).1 = 1 := by decide
+    (expansionStatus (envOf []) (.binary .quo (.word [49]) (.word [48]))).1 = 1 ∧
+    (expansionStatus (envOf [(ny, [120, 43])]) (.word ny)).1 = 0 ∧
+    (specExpansionStatus 100 (envOf [(ny, [120, 43])]) (.word ny)).1 = 1 := by decide
 
 /-! ## errors_iff -/
 
@@ -175,24 +203,26 @@ theorem errors_iff_binArit (op : BinOp) (x y : Int) (hop : plainBin op = true) :
 /-- On the domain of `eval_eq_spec_partial` the implementation reports an error iff bash does, and
     it is the same error. -/
 theorem errors_iff (fuel : Nat) (env : Env) (e : Expr) (err : Err)
-    (hwf : WF e = true) (henv : EnvOK env) (hlit : LitsOK e) (hlv : LvalsOK env.get e)
-    (hd : (specEval fuel bashMaxDepth env e).1.inDomain) :
+    (hwf : WF e = true) (henv : EnvOK env) (hlit : LitsOK e)
+    (hd : (specEval fuel codeDepth env e).1.good) :
     (evalArith env e).1 = .err err ↔ (specEval fuel bashMaxDepth env e).1 = .err err := by
-  have h := eval_eq_spec_partial fuel env e _ _ hwf henv hlit hlv rfl hd
-  rw [h]
+  obtain ⟨hm, hb, _, _⟩ := eval_eq_spec_partial fuel env e _ _ hwf henv hlit (prod_eta _) hd
+  rw [hm, hb]
 
-/-- Trees of bash's grammar never make `Arithm` panic … -/
-theorem no_panic (env : Env) (e : Expr) (hwf : WF e = true) : (evalArith env e).1 ≠ .panic :=
-  no_panic_core env e hwf
+/-- The last Go panic site of `Arithm` (the type assertion of the conditional) is not reachable on
+    trees of bash's grammar, at any nesting level whose nested evaluations do not panic. -/
+theorem no_panic (deeper : Env → Bytes → Res × Env)
+    (hd : ∀ env s, (deeper env s).1 ≠ .panic) (env : Env) (e : Expr) (hwf : WF e = true) :
+    (evalWith deeper env e).1 ≠ .panic :=
+  no_panic_core hd env e hwf
 
-/-- The parser also produces `++x++` = `++(x++)` (C20-preinc-postinc-panic, fixed in /repo by the
-    `nodeLit` check): it is no longer a Go panic but the error "unsupported assignment target";
-    bash reports an error too. -/
-theorem parser_output_unsupported_target :
+/-- The parser produces `++x++` = `+(+(x++))` since 46beebb (C20-preinc-postinc-panic, open): it
+    evaluates where bash reports an error. -/
+theorem parser_output_preinc_postinc :
     parseArith [.sym .addAdd, .word nx, .sym .addAdd] =
-      some (.unary .inc false (.unary .inc true (.word nx))) ∧
-    (evalArith (envOf []) (.unary .inc false (.unary .inc true (.word nx)))).1 =
-      .err .unsupTarget := by
+      some (.unary .plus false (.unary .plus false (.unary .inc true (.word nx)))) ∧
+    (evalArith (envOf [(nx, [49])])
+      (.unary .plus false (.unary .plus false (.unary .inc true (.word nx))))).1 = .ok 1 := by
   decide
 
 /-! ## atoi_spec -/
